@@ -29,6 +29,14 @@ def quotient (P : Prims PTerm) (c c1 : Contract PTerm) (addl : List Var) (simp :
 def merge (P : Prims PTerm) (c1 c2 : Contract PTerm) := Alg.merge PTerm.vars P c1 c2
 def mk (P : Prims PTerm) (a g : TL) (ins outs : List Var) (simp : Bool) := Alg.mkContract PTerm.vars P a g ins outs simp
 
+/-- `PolyhedralIoContract.optimize`: the LP runs over `self.a | self.g` -/
+def optimizeC (O : Oracle) (c : Contract PTerm) (obj : Lin) (mx : Bool) : Except Err (Option Rat) :=
+  Poly.optimize O (Gen.list_union c.a c.g) obj mx
+
+/-- `PolyhedralIoContract.get_variable_bounds` -/
+def boundsC (O : Oracle) (c : Contract PTerm) (x : Var) : Except Err (Option Rat × Option Rat) :=
+  Poly.variableBounds O (Gen.list_union c.a c.g) x
+
 /-- `PolyhedralTerm.rename_variable` -/
 def renameTerm (t : PTerm) (s d : Var) : PTerm :=
   if t.containsVar s then
